@@ -266,6 +266,11 @@ func c02Cases(thorough bool) []c02Case {
 									for _, sent := range sents {
 										for _, ic := range []bool{false, true} {
 											out = append(out, c02Case{cfg, code, msg, det, meta, sent, ic, 0})
+											if code != 0 && msg < 3 && det < 2 {
+												for cause := 1; cause <= 3; cause++ {
+													out = append(out, c02Case{cfg, code, msg, det, meta, sent, ic, cause})
+												}
+											}
 										}
 									}
 								}
